@@ -96,7 +96,7 @@ Proof.
   unfold cast_int_spec, rounded.
   destruct (ty_eqb src tgt) eqn:Eq.
   { (* same type: convert returns the value *)
-    apply ty_eqb_eq in Eq. subst tgt. unfold cast, convert. rewrite ty_eqb_refl.
+    apply ty_eqb_eq in Eq. subst tgt. unfold cast, convert, convert_r. rewrite ty_eqb_refl.
     rewrite Hs in Ht. injection Ht as ->. unfold well_typed in Hv. rewrite Hs in Hv.
     destruct v as [n | f | f]; try contradiction.
     cbn [valR finite_val val_class]. rewrite ZnearestA_IZR, Hv. reflexivity. }
@@ -104,7 +104,7 @@ Proof.
   pose proof (cfg_ok_pair cfg src tgt _ _ Hok Hs Ht Hne) as Hp.
   unfold pair_ok in Hp. rewrite Hs, Ht in Hp.
   unfold well_typed in Hv. rewrite Hs in Hv.
-  unfold cast, convert, explicit. rewrite Eq, Hpt, Hps.
+  unfold cast, convert, convert_r, explicit, explicit_r. rewrite Eq, Hpt, Hps.
   destruct ks as [ss sb | | ].
   - (* integer source *)
     destruct v as [n | f | f]; try contradiction.
@@ -236,7 +236,7 @@ Proof.
   intros cfg src tgt ks kt v Hok Hs Ht Hv.
   pose proof (num_of_prim _ _ Ht) as Hpt.
   destruct (ty_eqb src tgt) eqn:Eq.
-  { apply ty_eqb_eq in Eq. subst tgt. unfold convert. rewrite ty_eqb_refl.
+  { apply ty_eqb_eq in Eq. subst tgt. unfold convert, convert_r. rewrite ty_eqb_refl.
     rewrite Hs in Ht. injection Ht as <-.
     split; [reflexivity|]. split; [assumption|]. split; [reflexivity|]. intros _.
     unfold well_typed in Hv. rewrite Hs in Hv.
@@ -250,7 +250,7 @@ Proof.
   pose proof (cfg_ok_pair cfg src tgt _ _ Hok Hs Ht Hne) as Hp.
   unfold pair_ok in Hp. rewrite Hs, Ht in Hp.
   unfold well_typed in Hv. rewrite Hs in Hv.
-  unfold convert. rewrite Eq, Hpt.
+  unfold convert, convert_r. rewrite Eq, Hpt.
   destruct ks as [ss sb | | ]; destruct v as [n | f | f]; try contradiction.
   - (* integer source *)
     pose proof (num_of_int_bits _ _ _ Hs) as Hsb.
@@ -351,7 +351,7 @@ Proof.
     assert (Hne : src <> tgt) by (intros ->; rewrite Hs in Ht; discriminate).
     pose proof (cfg_ok_pair cfg src tgt _ _ Hok Hs Ht Hne) as Hp.
     unfold pair_ok in Hp. rewrite Hs, Ht in Hp.
-    unfold explicit. rewrite (num_of_prim _ _ Hs), (num_of_prim _ _ Ht).
+    unfold explicit, explicit_r. rewrite (num_of_prim _ _ Hs), (num_of_prim _ _ Ht).
     destruct (lookup (c_convert cfg) src tgt); [discriminate|].
     destruct (lookup (c_cast cfg) src tgt) as [[ | | | | | ]|]; try discriminate.
     unfold well_typed in Hv. rewrite Hs in Hv. destruct v as [n | f | f]; try contradiction.
